@@ -68,9 +68,25 @@ def rule_id_cache(ctx):
     for name, f in cls.methods.items():
         if f.is_alias or isinstance(f.node, ast.Lambda):
             continue
+        ldefs = {}
         for n in ast.walk(f.node):
-            if isinstance(n, ast.Return) and n.value is not None and "self.terms[" in src_of(n.value):
-                returns_terms.add(name)
+            if isinstance(n, ast.Assign):
+                for t in n.targets:
+                    if isinstance(t, ast.Name):
+                        ldefs.setdefault(t.id, []).append(n.value)
+        for n in ast.walk(f.node):
+            if isinstance(n, ast.Return) and n.value is not None:
+                # the returned expression, followed through the locals it is built from
+                todo, seen, txt = [n.value], set(), []
+                while todo:
+                    e = todo.pop()
+                    txt.append(src_of(e))
+                    for y in ast.walk(e):
+                        if isinstance(y, ast.Name) and y.id in ldefs and y.id not in seen:
+                            seen.add(y.id)
+                            todo.extend(ldefs[y.id])
+                if any("self.terms[" in t for t in txt):
+                    returns_terms.add(name)
     # which caches are consulted with state-derived keys outside __init__
     live = {}
     classes = [cls] + cls.all_subclasses()
@@ -511,4 +527,64 @@ def rule_default_orientation(ctx):
             r.bad(Finding("default-orientation", "LocalHam1D.__init__",
                           f"the default two-site term is assigned (line {x.lineno}, {kind}) without testing both key orientations for an existing term",
                           where=where))
+    return r
+
+
+def rule_gate_orientation(ctx):
+    r = RuleResult(
+        "gate-orientation",
+        "two-site terms are stored once under the sorted pair, in that pair's order: LocalHamGen.get_gate, which accepts the "
+        "pair in either order, must compare the requested order with the stored one and return the flipped operator when "
+        "they differ (otherwise TEBD's periodic boundary gate, requested and applied as (L-1, 0), acts with its factors "
+        "exchanged); in TEBD.sweep every gate is applied on exactly the site pair it was requested for",
+    )
+    f = ctx.prog.func(TEBDAG, "LocalHamGen.get_gate")
+    if f is None:
+        raise AnalysisError("LocalHamGen.get_gate not found")
+    where = f"{f.module.relpath}:{f.lineno}"
+    pname = [p for p in f.params if p != "self"][0]
+    canon = [c for c in ast.walk(f.node) if isinstance(c, ast.Call) and isinstance(c.func, ast.Name) and c.func.id == "sorted" and any(isinstance(x, ast.Name) and x.id == pname for a in c.args for x in ast.walk(a))]
+    if not canon:
+        # no canonicalisation: the lookup is by the order given (a KeyError for the other order is loud)
+        r.ok("LocalHamGen.get_gate", sample={"lookup": "by the order given"})
+    else:
+        inside = {id(x) for c in canon for x in ast.walk(c)}
+        other_uses = [x for x in ast.walk(f.node) if isinstance(x, ast.Name) and x.id == pname and isinstance(x.ctx, ast.Load) and id(x) not in inside]
+        compares = [c for c in ast.walk(f.node) if isinstance(c, ast.Compare) and any(x in other_uses for x in ast.walk(c))]
+        flips = [c for c in ast.walk(f.node) if isinstance(c, ast.Call) and ("flip" in (getattr(c.func, "attr", "") or getattr(c.func, "id", "") or "") or "transpose" in src_of(c))]
+        if compares and flips:
+            r.ok("LocalHamGen.get_gate", sample={"lookup": "sorted pair", "order test": src_of(compares[0]), "compensation": src_of(flips[0])[:40]})
+        else:
+            r.bad(Finding(
+                "gate-orientation", "LocalHamGen.get_gate",
+                f"looks the term up under sorted({pname}) and returns it as stored, whatever order was requested: for {pname}=(j, i) with j > i the "
+                "caller receives the operator in (i, j) order and applies it on (j, i) — wrong for any term that is not symmetric under exchange "
+                "of its two sites (TEBD with a cyclic LocalHam1D requests the boundary gate as (L-1, 0))",
+                where=where, operand="unflipped"))
+    # TEBD.sweep: requested pair == applied pair
+    sw = ctx.prog.func(TEBD1D, "TEBD.sweep")
+    if sw is None:
+        raise AnalysisError("TEBD.sweep not found")
+    n = 0
+    last_req = None
+    events = []
+    for x in ast.walk(sw.node):
+        if isinstance(x, ast.Assign) and isinstance(x.value, ast.Call) and isinstance(x.value.func, ast.Attribute) and x.value.func.attr == "_get_gate_from_ham":
+            a = x.value.args[1] if len(x.value.args) > 1 else next((k.value for k in x.value.keywords if k.arg == "sites"), None)
+            events.append((x.lineno, "req", src_of(a) if a is not None else None, src_of(x.targets[0])))
+        if isinstance(x, ast.Call) and isinstance(x.func, ast.Attribute) and x.func.attr in ("gate_split_", "gate_split", "gate_", "gate"):
+            wv = next((k.value for k in x.keywords if k.arg == "where"), x.args[1] if len(x.args) > 1 else None)
+            events.append((x.lineno, "app", src_of(wv) if wv is not None else None, src_of(x.args[0]) if x.args else None))
+    events.sort()
+    for ln, kind, sites, gate in events:
+        if kind == "req":
+            last_req = (sites, gate)
+        else:
+            n += 1
+            if last_req is None or last_req[1] != gate or last_req[0] != sites:
+                r.bad(Finding("gate-orientation", "TEBD.sweep", f"gate `{gate}` applied on `{sites}` (line {ln}) but requested for `{last_req[0] if last_req else None}`",
+                              where=f"{sw.module.relpath}:{ln}", operand=f"applied:{sites}"))
+            else:
+                r.ok(f"TEBD.sweep@{sites}", sample={"requested for": sites, "applied on": sites}, nontrivial=False)
+    r.floor(n, 4, "gate applications in TEBD.sweep")
     return r
